@@ -247,6 +247,50 @@ class Body:
                     dq.append(y)
         return seen
 
+    def err_cut(self, blk):
+        """Continue-edge targets of every `?` whose operand may be the Result::Err / error value constructed in blk:
+        for that value the Continue edge is infeasible."""
+        if not hasattr(self, "_errcut"):
+            self._errcut = {}
+            for tb in sorted(self._reach):
+                tt = self.blocks[tb]["term"]
+                if tt["k"] == "call" and re.search(r"ops::Try::branch$", tt.get("callee", "")) and tt.get("target") is not None:
+                    st = self.blocks[tt["target"]]["term"]
+                    if st["k"] != "switch":
+                        continue
+                    cont = {bb for v, bb in st["targets"] if v == 0}
+                    sl = self.slice_op(tt["args"][0])
+                    for d in sl.aggs:
+                        rv = d["stmt"]["rv"]
+                        if (rv.get("adt") == "std::result::Result" and rv.get("variant") == "Err") or rv.get("adt") == "error::SignatureError":
+                            self._errcut.setdefault(d["block"], set()).update(cont)
+        return self._errcut.get(blk, set())
+
+    def dominates_feasible(self, x, y):
+        """x lies on every *feasible* entry->y path (the Continue edge of a `?` is infeasible for an error value
+        constructed on the way: a helper that was inlined returns its Err through such a `?`)."""
+        if self.dominates(x, y):
+            return True
+        return y not in self.reach_feasible(0, without=x)
+
+    def reach_feasible(self, start, without=None):
+        """Blocks reachable from start, not following the Continue edge of a `?` for an error value constructed on the way."""
+        seen = set()
+        dq = deque([(start, frozenset())])
+        out = set()
+        while dq:
+            x, avoid = dq.popleft()
+            if (x, avoid) in seen or x == without:
+                continue
+            seen.add((x, avoid))
+            out.add(x)
+            av = avoid | frozenset(self.err_cut(x))
+            for s in self._succ[x]:
+                if s in av:
+                    continue
+                dq.append((s, av))
+        return out
+
     def live_blocks(self):
         return self._reach
 
